@@ -191,11 +191,19 @@ type zzNetConn struct {
 	in       *zzStream
 	out      *zzSink
 	closes   int
+	onClose  func() // one nested preemption while the socket is being closed
 }
 
 func (c *zzNetConn) Read(p []byte) (int, error)  { return c.in.Read(p) }
 func (c *zzNetConn) Write(p []byte) (int, error) { return c.out.Write(p) }
-func (c *zzNetConn) Close() error                { c.closes++; return nil }
+func (c *zzNetConn) Close() error {
+	c.closes++
+	if h := c.onClose; h != nil {
+		c.onClose = nil
+		h()
+	}
+	return nil
+}
 
 // ---- handler, worker pool, delegate, logger ---------------------------------------------------------------
 
@@ -357,3 +365,31 @@ func (e *zzConnEnv) handlersRequested() int {
 	time.Sleep(3 * time.Millisecond)
 	return int(e.handler.arrived.Load())
 }
+
+// pendingChannel returns the channel of the first handler the connection asked to start.
+func (w *zzWorkers) pendingChannel() *channel {
+	if !zzverif.Symbolic() {
+		for i := 0; i < 200; i++ {
+			w.handler.mu.Lock()
+			n := len(w.handler.parked)
+			var c Channel
+			if n > 0 {
+				c = w.handler.parked[0]
+			}
+			w.handler.mu.Unlock()
+			if n > 0 {
+				return c.(*channel)
+			}
+			time.Sleep(time.Millisecond)
+		}
+		return nil
+	}
+	if len(w.pending) == 0 {
+		return nil
+	}
+	if h, ok := w.pending[0].(*channelHandler); ok {
+		return h.ch
+	}
+	return nil
+}
+
